@@ -38,7 +38,7 @@ def rsplitOnceDot (s : Str) : Option (Str × Str) :=
   | (lastRev, _ :: parentRev) => some (parentRev.reverse, lastRev.reverse)
 
 /-- `Scala::last_package_segment`: everything after the last dot, or the whole name when it has
-none (`fix:` commit fb91590; before it `package object <x> {` / `package <x> {` were only written
+none (`fix:` commit 653aee1; before it `package object <x> {` / `package <x> {` were only written
 for a name with a dot, their closing braces always) -/
 def lastPackageSegment (package : Str) : Str :=
   match rsplitOnceDot package with
@@ -100,7 +100,7 @@ def isUnsigned : RustType → Bool
   | _ => false
 
 mutual
-  /-- `fn uses_unsigned` inside `unsigned_integer_used` (since the `fix:` commit c7871b1): the scan
+  /-- `fn uses_unsigned` inside `unsigned_integer_used` (since the `fix:` commit 37c1b68): the scan
   descends through `Generic` arguments, `Option`, `Vec`, arrays, slices and both sides of a
   `HashMap`, to any depth (type mappings are not consulted) -/
   def usesUnsigned : RustType → Bool
@@ -187,7 +187,7 @@ def writeStruct (cfg : Cfg) (rs : RustStruct) : Outcome Str :=
 
 structure ScAlias where
   comments : List Str
-  name : Str          -- `id.renamed` (since the `fix:` commit b182a80; was `id.original`)
+  name : Str          -- `id.renamed` (since the `fix:` commit 0c924cd; was `id.original`)
   generics : List Str
   ty : Str
 deriving Repr, Inhabited, DecidableEq
@@ -244,7 +244,7 @@ def caseFacts (cfg : Cfg) (e : RustEnum) (v : RustEnumVariant) : Outcome ScCase 
     .ok { comments := v.comments, name := v.id.original, content := none,
           parent := e.id.renamed, parentGenerics := [], serialName := v.id.renamed }
   | some (_, contentKey) =>
-    -- `RustEnum::Algebraic`: `extends <renamed><generics>` (since the `fix:` commit 03e02a1)
+    -- `RustEnum::Algebraic`: `extends <renamed><generics>` (since the `fix:` commit 3d3e1e7)
     let mk (content : Option (List Str × Str × Str)) : ScCase :=
       { comments := v.comments, name := variantName v.id.original, content,
         parent := e.id.renamed, parentGenerics := e.genericTypes, serialName := v.id.renamed }
